@@ -60,6 +60,7 @@ type Contract struct {
 	Opaque   map[string]bool // callees whose contracts are ignored (havoc) in this function
 	Notes    []string
 	Fields   map[string][]string // classification of the receiver struct's fields by kind (reset contracts)
+	Records  []Clause            // ghost instrumentation: assumed after calls, not checked against the body
 	Stable   []string            // package-level variables assumed not to be modified by uncontracted calls
 }
 
@@ -197,6 +198,12 @@ func (cs *ContractSet) parseContractFile(path, pkgPath string, trusted bool) err
 				} else {
 					cur.Params = names
 				}
+			case "records":
+				c, err := parseClause(rest, src)
+				if err != nil {
+					return err
+				}
+				cur.Records = append(cur.Records, c)
 			case "requires", "ensures", "assume":
 				c, err := parseClause(rest, src)
 				if err != nil {
